@@ -113,6 +113,9 @@ func clausesMention(c *Contract, p string) bool {
 		if cs.Clause != nil && hasProp(cs.Clause.Props, p) {
 			return true
 		}
+		if hasProp(cs.Props, p) {
+			return true
+		}
 	}
 	return false
 }
